@@ -8,6 +8,7 @@ from spec import gsm as gspec
 
 ID = 'C09'
 TARGETS = ['SmppVerif.Props.C09']
+THOROUGH_ROUNDS = 12
 RULE = ('segmented deliver_sm histories through ESME._handle_request: all arrival permutations for 2..5 segments '
         '(6 in thorough), random permutations up to 255 segments, 2-3 interleaved messages with distinct references, '
         'SAR parameters / UDH 8-bit / UDH 16-bit built by an independent encoder, GSM and UCS2 payloads with surrogate '
